@@ -1051,6 +1051,11 @@ def gen_pp_cases(rng, cid0, thorough):
                                      rng.randrange(1, 5)), rng.choice(["given", "none"])) for _ in range(20)]
     out = []
     for j, (steps, lab) in enumerate(specs):
+        # channel_labels=None together with bad_channel_interpolation runs the channel DETECTION, which reads 1 s
+        # snippets and needs a recording of seconds (only the dedicated "detect" case has one; on a short recording
+        # detect_bad_channels raises ValueError(padlen) - outside the domain): otherwise labels are always given
+        if steps is not None and "bad_channel_interpolation" in steps and lab == "none":
+            lab = "given"
         c = gen_case(rng, cid0 + j)
         # 16 channels: the spatial filters (car / kfilt) need more traces than their filter padding
         # ... and every snippet must be longer than the temporal filters' padding (sosfiltfilt: 12 samples;
